@@ -204,9 +204,10 @@ def run_mutant(m, keep_going=True) -> dict:
                 shutil.copy(REPO / f, d / f)
         (d / "src" / "pest" / rel).write_text(text)
         env = {**os.environ, "PYTHONPATH": str(d / "src")}
-        t = subprocess.run(["/venv/bin/python", "-m", "pytest", "-q", "-x", "-p", "no:cacheprovider", "--timeout=120", "--continue-on-collection-errors"], cwd=d, env=env, capture_output=True, text=True, timeout=900, check=False)
+        t = subprocess.run(["/venv/bin/python", "-m", "pytest", "-q", "-p", "no:cacheprovider", "--timeout=120", "--continue-on-collection-errors"], cwd=d, env=env, capture_output=True, text=True, timeout=900, check=False)
         tail = (t.stdout.strip().splitlines() or [""])[-1]
-        if " failed" in tail or ("passed" not in tail):
+        # baseline: "678 passed, 1 error" (the one expected collection error)
+        if " failed" in tail or "678 passed" not in tail or "1 error" not in tail:
             return {**m, "status": "tests", "tests": tail[:80]}
         res = {}
         status = "survived"
